@@ -243,6 +243,18 @@ func (r *rig) evalSession(res *scResult, s *session, o *outcome, mustSucceed boo
 				fmt.Sprintf("no final notification and the syncer actor no longer processes its mailbox: it is blocked in %s (nothing emitted, no reply outstanding for %d driver ticks of %v)", site, stallTicks, driverTick))})
 			return
 		}
+		if kind == "session-idle-forever" && !isSuspect(sc.Class) {
+			// keyed by the last message the syncer emitted before it went silent (stable across scenario classes)
+			lastOut := "nothing"
+			for _, e := range s.events {
+				if e.Dir == "out" {
+					lastOut = e.Kind
+				}
+			}
+			res.Viols = append(res.Viols, viol{Key: "C17/no-progress:session-idle-forever/after-" + lastOut + tag, Case: sc, Desc: r.describeSession(s, o,
+				fmt.Sprintf("no final notification; the syncer emitted nothing and no reply was outstanding for %d consecutive driver ticks of %v (fetch timeout %v, hash timeout %v); the actor still answers", stallTicks, driverTick, fetchTimeout, hashTimeout))})
+			return
+		}
 		V("no-progress:"+kind, fmt.Sprintf("no final notification; the syncer emitted nothing and no reply was outstanding for %d consecutive driver ticks of %v (fetch timeout %v, hash timeout %v)", stallTicks, driverTick, fetchTimeout, hashTimeout))
 		return
 	}
